@@ -163,64 +163,9 @@ func runC05(c *Ctx) {
 	r := results[0]
 	a := r.A
 	R.Notes["paired_lemma_used"] = a.PairedUsed
-	// clause: completed message
-	nDone := 0
-	lr := layoutResult{}
-	name := shortFn(cp)
-	for _, ret := range r.Rets {
-		tu, ok := ret.Val.(*absint.Tuple)
-		if !ok || len(tu.Elems) != 2 {
-			continue
-		}
-		b, _ := tu.Elems[1].(*absint.Bool)
-		if b == nil || b.Kind != absint.BConst || !b.Val {
-			continue
-		}
-		nDone++
-		trace := strings.Join(ret.St.Trace, " → ")
-		mp, ok := tu.Elems[0].(*absint.Ptr)
-		if !ok {
-			lr.set("E3.complete", name+" / returned message", false, "the completed message is not a freshly built *Message; path "+trace)
-			continue
-		}
-		msgT := cp.Signature.Results().At(0).Type()
-		ext, extT := a.LoadField(ret.St, mp, msgT, "ExtensionFields")
-		_ = ext
-		_ = extT
-		// navigate: Message.JTMessage.Body ; Message.ExtensionFields.TerminalData / SubcontractComplete
-		jm, jmT := a.LoadField(ret.St, mp, msgT, "JTMessage")
-		var body absint.Term
-		if jm != nil {
-			body, _ = a.LoadField(ret.St, jm, jmT, "Body")
-		}
-		bs, _ := body.(*absint.Slice)
-		fresh := bs != nil && bs.Base.Fresh
-		lr.set("E3.complete", name+" / Body is a fresh buffer", fresh, "Body of the completed message is not a buffer built by this call (it aliases stored data); path "+trace)
-		var td, sc absint.Term
-		if es, ok := ext.(*absint.Struct); ok {
-			st := es.Typ.Underlying().(*types.Struct)
-			for i := 0; i < st.NumFields(); i++ {
-				switch st.Field(i).Name() {
-				case "TerminalData":
-					td = es.Fields[i]
-				case "SubcontractComplete":
-					sc = es.Fields[i]
-				}
-			}
-		}
-		same := td != nil && body != nil && td.TKey() == body.TKey()
-		lr.set("E3.complete", name+" / TerminalData is the reassembled body", same, "TerminalData and Body of the completed message differ; path "+trace)
-		flag := false
-		if sb, ok := sc.(*absint.Bool); ok && sb.Kind == absint.BConst && sb.Val {
-			flag = true
-		}
-		lr.set("E3.complete", name+" / SubcontractComplete is set", flag, "the completed message is not flagged SubcontractComplete; path "+trace)
-	}
-	if nDone == 0 {
-		R.Add("E3.complete", name+" / (no completing return found)", c.P.RelPos(cp.Pos()), report.Undecided, "no return with ok=true")
-	}
-	lr.flush(c, c.P.RelPos(cp.Pos()))
+	c.completedMessageObligations("E3.complete", cp, r)
 	_ = recv
+	name := shortFn(cp)
 	// clause: rejection is pure. Blocks from which the only exits are `return nil,false` and that
 	// are control dependent on the range guard: here approximated as: every block that ends in a
 	// Return of constant (nil,false) and its straight-line predecessors contain no mutation.
@@ -297,6 +242,97 @@ func runC05(c *Ctx) {
 	R.Require("E1.index", 3, "")
 	if lemma && a.PairedUsed == 0 {
 		R.Fatal("the paired-map lemma was established but never used by E1 (the timestamp-record dereference was not found)")
+	}
+	// ---- every extracted message is filed exactly once, in stream order
+	{
+		R.Rules["S.each-once"] = "completePack runs once for every message the extractor returned for this read, in order: its argument is the element of the extractor's result at the loop index, and inside that loop the array being walked is not rearranged - the slice (or anything that may share its array) is only indexed, measured or grown with append; an insertion / deletion shifts elements under the running index, so a frame of a coalesced read is skipped and another is filed twice"
+		parse := c.P.Method("service", "packageParse", "parse")
+		cpk := c.P.Method("service", "packageParse", "completePack")
+		n := 0
+		if parse != nil && cpk != nil {
+			for _, fn := range c.familyOf(parse) {
+				loops := naturalLoops(fn)
+				for _, b := range fn.Blocks {
+					for _, ins := range b.Instrs {
+						call, isC := ins.(*ssa.Call)
+						if !isC || call.Call.StaticCallee() != cpk || len(call.Call.Args) < 2 {
+							continue
+						}
+						n++
+						key := shortFn(fn) + " / " + c.constructOf(fn, call)
+						ld, isLd := call.Call.Args[1].(*ssa.UnOp)
+						var ia *ssa.IndexAddr
+						if isLd {
+							ia, _ = ld.X.(*ssa.IndexAddr)
+						}
+						if ia == nil {
+							// not a loop over a slice (a single message): nothing to rearrange
+							R.Add("S.each-once", key, c.P.RelPos(call.Pos()), report.Discharged, "")
+							continue
+						}
+						// values that may share the walked array
+						alias := map[ssa.Value]bool{ia.X: true}
+						for changed := true; changed; {
+							changed = false
+							for _, b2 := range fn.Blocks {
+								for _, i2 := range b2.Instrs {
+									v, isV := i2.(ssa.Value)
+									if !isV || alias[v] {
+										continue
+									}
+									switch x := i2.(type) {
+									case *ssa.Phi:
+										for _, e := range x.Edges {
+											if alias[e] {
+												alias[v], changed = true, true
+											}
+										}
+									case *ssa.Slice:
+										if alias[x.X] {
+											alias[v], changed = true, true
+										}
+									case *ssa.Call:
+										if app, isApp := isBuiltinCall(x, "append"); isApp && alias[app.Call.Args[0]] {
+											alias[v], changed = true, true
+										}
+									}
+								}
+							}
+						}
+						st, d := report.Discharged, ""
+						for _, l := range loops {
+							if !l[b] {
+								continue
+							}
+							for lb := range l {
+								for _, i2 := range lb.Instrs {
+									switch x := i2.(type) {
+									case *ssa.Call:
+										if bi, isB := x.Call.Value.(*ssa.Builtin); isB && (bi.Name() == "append" || bi.Name() == "len" || bi.Name() == "cap") {
+											continue
+										}
+										for _, a := range x.Call.Args {
+											if alias[a] {
+												st, d = report.Violated, fmt.Sprintf("inside the loop that files the messages, the slice being walked is handed to %s at %s: elements can move under the running index (a frame of a coalesced read is skipped, another is filed twice)", calleeName(&x.Call), c.P.RelPos(x.Pos()))
+											}
+										}
+									case *ssa.Store:
+										if ia2, isIA := x.Addr.(*ssa.IndexAddr); isIA && alias[ia2.X] {
+											st, d = report.Violated, "inside the loop that files the messages, an element of the slice being walked is overwritten at "+c.P.RelPos(x.Pos())
+										}
+									}
+								}
+							}
+						}
+						R.Add("S.each-once", key, c.P.RelPos(call.Pos()), st, d)
+					}
+				}
+			}
+		}
+		if n == 0 {
+			R.Fatal("S.each-once: no call of completePack found in the family of packageParse.parse (anchor)")
+		}
+		R.Require("S.each-once", 1, "")
 	}
 	// ---- a slot holds the body of the packet filed under its number, nothing accumulated
 	{
@@ -780,4 +816,81 @@ func (c *Ctx) hasCompleteContract() {
 		}
 	}
 	R.Add("E3.complete-predicate", shortFn(fn)+" / complete iff unfragmented or flagged by the reassembler", c.P.RelPos(fn.Pos()), st, d)
+}
+
+// completedMessageObligations (shared by C05 and C06): on every return of completePack that reports completion, the
+// returned message carries a freshly built body, the same bytes as its raw data, and the SubcontractComplete flag.
+func (c *Ctx) completedMessageObligations(rule string, cp *ssa.Function, r *E1Result) {
+	R := c.R
+	a := r.A
+	// clause: completed message
+	nDone := 0
+	lr := layoutResult{}
+	name := shortFn(cp)
+	for _, ret := range r.Rets {
+		tu, ok := ret.Val.(*absint.Tuple)
+		if !ok || len(tu.Elems) != 2 {
+			continue
+		}
+		b, _ := tu.Elems[1].(*absint.Bool)
+		if b == nil || b.Kind != absint.BConst || !b.Val {
+			continue
+		}
+		nDone++
+		trace := strings.Join(ret.St.Trace, " → ")
+		mp, ok := tu.Elems[0].(*absint.Ptr)
+		if !ok {
+			lr.set(rule, name+" / returned message", false, "the completed message is not a freshly built *Message; path "+trace)
+			continue
+		}
+		msgT := cp.Signature.Results().At(0).Type()
+		ext, extT := a.LoadField(ret.St, mp, msgT, "ExtensionFields")
+		_ = ext
+		_ = extT
+		// navigate: Message.JTMessage.Body ; Message.ExtensionFields.TerminalData / SubcontractComplete
+		jm, jmT := a.LoadField(ret.St, mp, msgT, "JTMessage")
+		var body absint.Term
+		if jm != nil {
+			body, _ = a.LoadField(ret.St, jm, jmT, "Body")
+		}
+		bs, _ := body.(*absint.Slice)
+		fresh := bs != nil && bs.Base.Fresh
+		lr.set(rule, name+" / Body is a fresh buffer", fresh, "Body of the completed message is not a buffer built by this call (it aliases stored data); path "+trace)
+		var td, sc absint.Term
+		if es, ok := ext.(*absint.Struct); ok {
+			st := es.Typ.Underlying().(*types.Struct)
+			for i := 0; i < st.NumFields(); i++ {
+				switch st.Field(i).Name() {
+				case "TerminalData":
+					td = es.Fields[i]
+				case "SubcontractComplete":
+					sc = es.Fields[i]
+				}
+			}
+		}
+		same := td != nil && body != nil && td.TKey() == body.TKey()
+		lr.set(rule, name+" / TerminalData is the reassembled body", same, "TerminalData and Body of the completed message differ; path "+trace)
+		flag := false
+		if sb, ok := sc.(*absint.Bool); ok && sb.Kind == absint.BConst && sb.Val {
+			flag = true
+		}
+		lr.set(rule, name+" / SubcontractComplete is set", flag, "the completed message is not flagged SubcontractComplete; path "+trace)
+	}
+	if nDone == 0 {
+		R.Add(rule, name+" / (no completing return found)", c.P.RelPos(cp.Pos()), report.Undecided, "no return with ok=true")
+	}
+	lr.flush(c, c.P.RelPos(cp.Pos()))
+}
+
+// completedMessageStandalone runs completePack once (arbitrary parser state and message) for completedMessageObligations.
+func (c *Ctx) completedMessageStandalone(rule string) {
+	cp := c.P.Method("service", "packageParse", "completePack")
+	if cp == nil {
+		c.R.Fatal("anchor (*service.packageParse).completePack not found")
+		return
+	}
+	results := c.RunE1([]*ssa.Function{cp}, true, func(a *absint.Analyzer, fn *ssa.Function, st *absint.State, args []absint.Term) {
+		a.PairedMaps = map[string]string{".packageParse#timeoutRecord": ".packageParse#subcontractingRecord"}
+	})
+	c.completedMessageObligations(rule, cp, results[0])
 }
